@@ -92,6 +92,35 @@ def retext(rng, node: Node, schema):
     return Node.from_json(schema, j)
 
 
+def remarked_retext(rng, node: Node, schema):
+    """independently rebuilt copy in which one text node has BOTH other marks and another ending (it keeps a
+    prefix or suffix of its text): the difference is the node itself, not somewhere inside it"""
+    j = node.to_json()
+    texts = []
+
+    def walk(x):
+        if x.get("type") == "text":
+            texts.append(x)
+        for c in x.get("content", []) or []:
+            walk(c)
+    walk(j)
+    if texts:
+        t = rng.choice(texts)
+        s = t["text"]
+        if rng.random() < 0.5:
+            t["text"] = s + rng.choice(["z", "\U0001F601"])          # common prefix
+        else:
+            t["text"] = rng.choice(["z", "\U0001F601"]) + s          # common suffix
+        if t.get("marks"):
+            t.pop("marks")
+        else:
+            t["marks"] = [{"type": "em"}] if "em" in schema.marks else []
+    try:
+        return Node.from_json(schema, j)
+    except Exception:  # noqa: BLE001
+        return node
+
+
 def generate(rng: random.Random, tier: str):
     quick = tier == "quick"
     ndocs = 25 if quick else 400
@@ -109,6 +138,9 @@ def generate(rng: random.Random, tier: str):
             yield diff_case(fam, doc.content, doc.content, "identical-object")
             alt = retext(rng, doc, sc)
             yield diff_case(fam, doc.content, alt.content, "text-altered-copy(astral)")
+            alt2 = remarked_retext(rng, doc, sc)
+            yield diff_case(fam, doc.content, alt2.content, "text-remarked-and-altered")
+            yield diff_case(fam, alt2.content, doc.content, "text-remarked-and-altered")
             other = rng.choice(docs)
             yield diff_case(fam, doc.content, other.content, "unrelated")
             # prefixes / suffixes by child count
